@@ -493,7 +493,8 @@ class Gen:
             return self.list(d)
         if k == 4:
             self.f("compare")
-            return self.t("inc")(self.int(d)) != self.lit()
+            a = self.t("inc")(self.int(d))
+            return r.choice([lambda: a != self.lit(), lambda: a <= self.lit(), lambda: a > self.lit(), lambda: a >= self.lit()])()
         return self.int(d)
 
     def cond_expr(self, d, g):
